@@ -4,7 +4,10 @@ import (
 	"context"
 	"encoding/json"
 	"fmt"
+	"google.golang.org/protobuf/proto"
+	"google.golang.org/protobuf/types/known/structpb"
 	"math/rand"
+	"reflect"
 	"sort"
 	"strings"
 
@@ -122,6 +125,42 @@ func notE(e *gripql.HasExpression) *gripql.HasExpression {
 	return &gripql.HasExpression{Expression: &gripql.HasExpression_Not{Not: e}}
 }
 
+// c08Builder builds the condition through the exported builder functions.
+func c08Builder(op, key string, arg interface{}) *gripql.HasExpression {
+	switch op {
+	case "EQ":
+		return gripql.Eq(key, arg)
+	case "NEQ":
+		return gripql.Neq(key, arg)
+	case "GT":
+		return gripql.Gt(key, arg)
+	case "GTE":
+		return gripql.Gte(key, arg)
+	case "LT":
+		return gripql.Lt(key, arg)
+	case "LTE":
+		return gripql.Lte(key, arg)
+	case "INSIDE":
+		return gripql.Inside(key, arg)
+	case "OUTSIDE":
+		return gripql.Outside(key, arg)
+	case "BETWEEN":
+		return gripql.Between(key, arg)
+	case "CONTAINS":
+		return gripql.Contains(key, arg)
+	case "WITHIN", "WITHOUT":
+		members, ok := arg.([]interface{})
+		if !ok {
+			return nil
+		}
+		if op == "WITHIN" {
+			return gripql.Within(key, members...)
+		}
+		return gripql.Without(key, members...)
+	}
+	return nil
+}
+
 func c08Leaves() []*gripql.HasExpression {
 	return []*gripql.HasExpression{
 		cond("GT", "p", 0.0),
@@ -229,12 +268,22 @@ func c08Setup(w *fw.Worker) *c08Env {
 			}
 			env.trav = append(env.trav, (&gdbi.BaseTraveler{}).AddCurrent(v))
 		}
+		// every value vertex points at one hub: the same element then reaches a has() step once per source
+		if err := gi.AddVertex([]*gdbi.Vertex{{ID: "hub", Label: "H", Data: map[string]interface{}{}, Loaded: true}}); err != nil {
+			panic(err)
+		}
+		for i := range c08Elems {
+			e := &gdbi.Edge{ID: fmt.Sprintf("e%02d", i), Label: "r", From: fmt.Sprintf("v%02d", i), To: "hub", Data: map[string]interface{}{}, Loaded: true}
+			if err := gi.AddEdge([]*gdbi.Edge{e}); err != nil {
+				panic(err)
+			}
+		}
 		return env
 	}).(*c08Env)
 }
 
 func (env *c08Env) engineKept(w *fw.Worker, e *gripql.HasExpression) ([]bool, string) {
-	q := gripql.V().Has(e)
+	q := gripql.V().HasLabel("L").Has(e)
 	rows := gq.Run(context.Background(), env.graph.Compiler(), q.Statements, w.NewDir("work"))
 	if rows.CompileErr != "" {
 		return nil, rows.CompileErr
@@ -247,7 +296,57 @@ func (env *c08Env) engineKept(w *fw.Worker, e *gripql.HasExpression) ([]bool, st
 		}
 		kept[i] = true
 	}
+	// the same condition read through a mark, evaluated on ONE element (the hub) reached from every source:
+	// V().hasLabel(L).as(s).out().has(e over $s.p).render($s._gid)
+	rs, _ := structpb.NewValue("$s._gid")
+	stmts := append(gripql.V().HasLabel("L").As("s").Out().Has(rekey(e, "p", "$s.p")).Statements, &gripql.GraphStatement{Statement: &gripql.GraphStatement_Render{Render: rs}})
+	rows = gq.Run(context.Background(), env.graph.Compiler(), stmts, w.NewDir("work"))
+	if rows.CompileErr != "" {
+		return nil, "via mark: " + rows.CompileErr
+	}
+	viaMark := make([]bool, len(c08Elems))
+	for _, r := range rows.Rows {
+		var i int
+		if _, err := fmt.Sscanf(r.GetRender().GetStringValue(), "v%02d", &i); err != nil || i >= len(viaMark) || viaMark[i] {
+			return nil, "via mark: unexpected or duplicate row " + gq.Canon(r)
+		}
+		viaMark[i] = true
+	}
+	for i := range kept {
+		if kept[i] != viaMark[i] {
+			return nil, fmt.Sprintf("V().hasLabel(L).has(e) keeps v%02d=%v but V().hasLabel(L).as(s).out().has(e over $s.p) keeps the row of source v%02d=%v", i, kept[i], i, viaMark[i])
+		}
+	}
 	return kept, ""
+}
+
+// rekey returns a copy of e in which every condition on key `from` reads key `to`.
+func rekey(e *gripql.HasExpression, from, to string) *gripql.HasExpression {
+	c := proto.Clone(e).(*gripql.HasExpression)
+	var walk func(x *gripql.HasExpression)
+	walk = func(x *gripql.HasExpression) {
+		if x == nil {
+			return
+		}
+		switch t := x.Expression.(type) {
+		case *gripql.HasExpression_Condition:
+			if t.Condition != nil && t.Condition.Key == from {
+				t.Condition.Key = to
+			}
+		case *gripql.HasExpression_And:
+			for _, y := range t.And.GetExpressions() {
+				walk(y)
+			}
+		case *gripql.HasExpression_Or:
+			for _, y := range t.Or.GetExpressions() {
+				walk(y)
+			}
+		case *gripql.HasExpression_Not:
+			walk(t.Not)
+		}
+	}
+	walk(c)
+	return c
 }
 
 func (env *c08Env) directKept(e *gripql.HasExpression) []bool {
@@ -293,6 +392,18 @@ func c08Exec(w *fw.Worker, c fw.Case) fw.Result {
 		e := cond(cc.Op, "p", arg)
 		want := modelKept(e)
 		res := fw.HeldR(true, "")
+		// the documented Go builders must build exactly this condition
+		if b := c08Builder(cc.Op, "p", arg); b != nil {
+			bj, _ := protojson.Marshal(b)
+			ej, _ := protojson.Marshal(e)
+			var bv, ev interface{}
+			json.Unmarshal(bj, &bv)
+			json.Unmarshal(ej, &ev)
+			if !reflect.DeepEqual(bv, ev) {
+				return fw.ViolatedR("builder:"+cc.Op, fmt.Sprintf("gripql.%s(p, %s) builds %s, the condition it stands for is %s", strings.Title(strings.ToLower(cc.Op)), string(cc.Arg), bj, ej), cc)
+			}
+			res.Count("builders_checked", 1)
+		}
 		res.Count("triples_direct", int64(len(c08Elems)))
 		direct := env.directKept(e)
 		eng, cerr := env.engineKept(w, e)
@@ -428,7 +539,7 @@ func reorder(e *gripql.HasExpression) *gripql.HasExpression {
 func init() {
 	fw.Register(&fw.Property{
 		ID:   "C08",
-		Rule: "cond cases: one (operator, argument) pair evaluated against all 24 element values at both boundaries (logic.MatchesHasExpression on a traveler; V().has(expr) through the production compiler on a Badger graph holding one vertex per value); bool cases: and/or/not trees over 6 base conditions, each checked against Boolean algebra in its original, double-negated, De-Morgan-dual and operand-reversed forms. distinct = distinct case payloads.",
+		Rule: "cond cases: one (operator, argument) pair evaluated against all 24 element values at both boundaries (logic.MatchesHasExpression on a traveler; V().hasLabel(L).has(expr) through the production compiler on a Badger graph holding one vertex per value, and the same expression read through a mark on ONE shared element reached from every value vertex: V().hasLabel(L).as(s).out().has(expr over $s.p)); the exported builder functions (gripql.Eq ... gripql.Within/Without) must build exactly the condition they stand for; bool cases: and/or/not trees over 6 base conditions, each checked against Boolean algebra in its original, double-negated, De-Morgan-dual and operand-reversed forms. distinct = distinct case payloads.",
 		Assumptions: []string{
 			"a missing property and an explicit null are both read as null (docs are silent; the literal engine does the same)",
 			"numeric text is text in the JSON number grammar; exotic spellings accepted by Go's ParseFloat (inf, nan, hex floats, underscores) are unspecified and not generated",
